@@ -5,9 +5,10 @@ Extracted on every run (constants only, no control flow):
   * zhang_huang_solar: the regression constants C0..C5, D_COEFF, K_COEFF (one tuple assignment)
   * estimate_illuminance_from_irradiance: the four Perez luminous-efficacy tables (8 x 4 each) and `kai`
   * _get_dirint_coeffs: the 6 x 6 x 7 x 5 DIRINT coefficient matrix
-  * get_relative_airmass: per `elif '<name>' == model` branch the numeric literals in source order
-  * _disc_kn / ashrae_revised_clear_sky / get_extra_radiation / calc_*: numeric literals in source order
-    (pinned against the hand model by theorem C10_constants_pinned)
+  * get_relative_airmass: the model names of the `elif '<name>' == model` chain
+  * numeric default arguments of the functions, the default air-mass model, the `0.1 if dhi == 0` replacement
+    (pinned against the hand model by theorem C10_constants_pinned; the formula bodies are translated by
+    sky_formulas.py)
 
 Tables used by the executable model are emitted polymorphically (`[OfScientific α] [Neg α]`) so the same
 definition is run on Float by the driver and reasoned about over the reals; `…Rat` copies serve `decide`.
@@ -192,23 +193,33 @@ def extract():
     il_lits = _func_literals(f_il, skip_tables=tuple(lum) + ('kai',))
 
     coeffs = _dirint_coeffs(find_func(tree, '_get_dirint_coeffs'))
-    am = _airmass_branches(find_func(tree, 'get_relative_airmass'))
-    pinned = [
-        ('disc_kn', _func_literals(find_func(tree, '_disc_kn'))),
-        ('revised_clear_sky', _func_literals(find_func(tree, 'ashrae_revised_clear_sky'))),
-        ('clear_sky', _func_literals(f_cs, skip_tables=('MONTHLY_A', 'MONTHLY_B'))),
-        ('zhang_huang', _func_literals(f_zh, skip_tables=())),
-        ('extra_radiation', _func_literals(find_func(tree, 'get_extra_radiation'))),
-        ('horizontal_infrared', _func_literals(find_func(tree, 'calc_horizontal_infrared'))),
-        ('sky_temperature', _func_literals(find_func(tree, 'calc_sky_temperature'))),
-        ('clearness_index', _func_literals(find_func(tree, 'clearness_index'))),
-        ('kt_prime', _func_literals(find_func(tree, 'clearness_index_zenith_independent'))),
-        ('absolute_airmass', _func_literals(find_func(tree, 'get_absolute_airmass'))),
-        ('disc', _func_literals(find_func(tree, 'disc'))),
-        ('dirint', _func_literals(find_func(tree, 'dirint'))),
-        ('dirint_bins', _func_literals(find_func(tree, '_dirint_bins'))),
-        ('illuminance', il_lits),
-    ] + [('airmass:' + k, v) for k, v in am]
+    # Numeric defaults of the signatures (the formula bodies themselves are translated statement by statement
+    # into Gen/SkyFormulas.lean by sky_formulas.py; what that translation does not see are the default
+    # arguments the hand model relies on, the default air-mass model and the `0.1 if dhi == 0` replacement).
+    def _defaults(name):
+        f = find_func(tree, name)
+        out = []
+        for d in f.args.defaults:
+            if isinstance(d, ast.Constant) and isinstance(d.value, (int, float)) and not isinstance(d.value, bool):
+                out.append(Fraction(repr(d.value)))
+        return out
+
+    pinned = [(n, _defaults(n)) for n in (
+        'ashrae_clear_sky', 'zhang_huang_solar', 'calc_sky_temperature', 'dirint', 'disc', '_disc_kn',
+        'get_extra_radiation', 'clearness_index', 'clearness_index_zenith_independent', 'get_absolute_airmass')]
+    repl = [n for n in ast.walk(f_il) if isinstance(n, ast.IfExp) and isinstance(n.test, ast.Compare)
+            and isinstance(n.test.left, ast.Name) and n.test.left.id == 'dhi'
+            and isinstance(n.test.ops[0], ast.Eq)]
+    if len(repl) != 1:
+        raise ExtractError('estimate_illuminance_from_irradiance: `<c> if dhi == 0 else dhi` not found')
+    pinned.append(('illuminance:dhi_if_zero', [Fraction(const_fold(repl[0].test.comparators[0])),
+                                               Fraction(const_fold(repl[0].body))]))
+    f_am = find_func(tree, 'get_relative_airmass')
+    am_default = [d.value for d in f_am.args.defaults if isinstance(d, ast.Constant) and isinstance(d.value, str)]
+    if len(am_default) != 1:
+        raise ExtractError('get_relative_airmass: default model name not found')
+    am = _airmass_branches(f_am)
+    am_names = [k for k, _ in am]
 
     poly = '{α : Type} [OfScientific α] [Neg α]'
     lines = [HEADER % ('sky_tables.py', SRC), 'namespace Gen.Sky', '',
@@ -243,8 +254,11 @@ def extract():
     flat = [x for i in range(6) for j in range(6) for r in coeffs[i][j] for x in r]
     lines.append('def dirintCoeffsFlatRat : List Rat := ' + _rat_list(flat))
     lines.append('')
-    lines.append('/-- Numeric literals of the formula functions in source order (pinned against the hand model). -/')
-    lines.append('def formulaLiterals : List (String × List Rat) := [')
+    lines.append('/-- Default air-mass model and the model names of `get_relative_airmass` in source order. -/')
+    lines.append('def airmassDefaultModel : String := "%s"' % am_default[0])
+    lines.append('def airmassModelNames : List String := [%s]' % ', '.join('"%s"' % k for k in am_names))
+    lines.append('/-- Numeric default arguments the hand model relies on (pinned against the hand model). -/')
+    lines.append('def signatureDefaults : List (String × List Rat) := [')
     lines.append(',\n'.join('  ("%s", %s)' % (k, _rat_list(v)) for k, v in pinned) + ']')
     lines += ['', 'end Gen.Sky', '']
     write_if_changed('SkyTables', '\n'.join(lines))
